@@ -242,6 +242,7 @@ type Acceptor struct {
 	raw   []net.Conn
 	wg    sync.WaitGroup
 	ok    atomic.Int64
+	ended atomic.Int64 // established connections whose transport has ended (the remote side hung up)
 }
 
 // NewAcceptor listens on ip:0.
@@ -287,6 +288,7 @@ func (ac *Acceptor) loop() {
 			for {
 				s, err := t.AcceptStream()
 				if err != nil {
+					ac.ended.Add(1)
 					return
 				}
 				ac.wg.Add(1)
@@ -312,6 +314,10 @@ func (ac *Acceptor) loop() {
 		}()
 	}
 }
+
+// OpenConns returns how many established connections are still open, i.e.
+// were not ended by the remote side (or by DropConns/Close).
+func (ac *Acceptor) OpenConns() int64 { return ac.ok.Load() - ac.ended.Load() }
 
 // Handshakes returns the number of completed handshakes.
 func (ac *Acceptor) Handshakes() int64 { return ac.ok.Load() }
